@@ -22,6 +22,9 @@ def observe(spec, inputs):
     snap = C.snapshot(n, m1)
     out = {"snap": snap, "topid": m1.id}
     try:
+        if spec.get("warm"):
+            C.warm(m1)
+            C.warm(m2)
         r = m1.evaluate_propositions(_interp(n, spec, inputs))
         top = m2.evaluate(_interp(n, spec, inputs))
         out["props"] = {k: [int(b.lower), int(b.upper)] for k, b in r.items()}
